@@ -12,8 +12,12 @@ package types
 //@ trusted
 //@ ensures result == rollingSeedOf(Other)
 
+// the staking module's view of a consensus address (abstract): who it is, or that it is unknown
+//@ spec consVal(o OtherState, a Bz) stakingtypes.ValidatorI uninterpreted
+//@ spec consErr(o OtherState, a Bz) Int uninterpreted
 //@ func (k StakingKeeper) ValidatorByConsAddr
 //@ trusted
+//@ ensures err == consErr(Other, arg1) && (err == nil ==> result == consVal(Other, arg1))
 //@ func (k AccountKeeper) GetModuleAccount
 //@ trusted
 //@ func (k BankKeeper) GetAllBalances
